@@ -9,6 +9,7 @@ twin's at the full vector with the dict substituted; sensitivities equal the
 twin's restricted to the free entries.
 """
 import copy
+import json
 
 import numpy as np
 
@@ -176,6 +177,9 @@ class PopSubject(Subject):
     def build(self, reduced):
         import chi
         pm = zoo.build_pop(self.recipe['pop'])
+        # a population model is told how many individuals it models
+        self.cur_k = self.recipe.get('n_ids', 1)
+        pm.set_n_ids(self.cur_k)
         return chi.ReducedPopulationModel(pm) if reduced else pm
 
     def full_names(self, twin):
@@ -189,24 +193,31 @@ class PopSubject(Subject):
         if n_cov == 0:
             return {}
         return {'covariates': np.array(op['cov'], dtype=float)[
-            :, :n_cov]}
+            :self._k(op), :n_cov]}
+
+    def _k(self, op):
+        return min(getattr(self, 'cur_k', None) or len(op['eta']),
+                   len(op['eta']))
+
+    def _x(self, op):
+        return op['x'][:len(self.names)]
 
     def _obs(self, ref, op):
         """Individual parameters consistent with pooled/heterogeneous dims."""
-        eta = np.array(op['eta'], dtype=float)
-        full = _full(ref, op['x'])
+        eta = np.array(op['eta'], dtype=float)[:self._k(op)]
+        full = _full(ref, self._x(op))
         return np.array(self.twin.compute_individual_parameters(
             full, eta, return_eta=True, **self._cov(op)))
 
     def evaluate(self, which, target, ref, op, full):
-        x = _full(ref, op['x']) if full else _free(ref, op['x'])
+        x = _full(ref, self._x(op)) if full else _free(ref, self._x(op))
         kw = self._cov(op)
+        k = self._k(op)
         if which == 'nhier':
-            return list(target.n_hierarchical_parameters(
-                len(op['eta'])))
+            return list(target.n_hierarchical_parameters(k))
         if which == 'indiv':
             return np.array(target.compute_individual_parameters(
-                x, np.array(op['eta'], dtype=float), **kw))
+                x, np.array(op['eta'], dtype=float)[:k], **kw))
         obs = self._obs(ref, op)
         if which == 'll':
             return target.compute_log_likelihood(x, obs, **kw)
@@ -217,7 +228,7 @@ class PopSubject(Subject):
                     kw['flattened'] = True
             return target.compute_sensitivities(x, obs, **kw)
         if which == 's1r':
-            dl = np.array(op['dlogp'], dtype=float)
+            dl = np.array(op['dlogp'], dtype=float)[:k]
             return target.compute_sensitivities(
                 x, obs, dlogp_dpsi=dl, reduce=True, **kw)
         if which == 'sample':
@@ -225,7 +236,7 @@ class PopSubject(Subject):
             if kw:
                 kw2['covariates'] = kw['covariates'][0]
             return target.sample(
-                x, n_samples=op.get('n_samples', 3), seed=op['seed'], **kw2)
+                x, n_samples=k, seed=op['seed'], **kw2)
 
     def restrict(self, which, res, ref, op):
         if is_exc(res):
@@ -597,6 +608,31 @@ def run(scenario, world):
                 raise Violation('op.rename', 'raises', '%s rename raised %r'
                                 % (s.kind, r), step)
             world.probe('rename_between_fixes')
+        elif k == 'set_n_ids':
+            if s.kind != 'pop':
+                continue
+            old_names = list(s.names)
+            if len(set(old_names)) != len(old_names):
+                continue        # fixed parameters are re-applied by name
+            r1 = call(s.obj.set_n_ids, op['n'])
+            r2 = call(s.twin.set_n_ids, op['n'])
+            if is_exc(r1) or is_exc(r2):
+                if is_exc(r1) and not is_exc(r2):
+                    raise Violation('op.set_n_ids', 'raises', '%r\n%s' % (
+                        r1, r1.tb), step)
+                continue
+            new_names = [str(n_) for n_ in s.twin.get_parameter_names()]
+            if len(set(new_names)) != len(new_names):
+                continue
+            # documented by the repair of ReducedPopulationModel.set_n_ids:
+            # fixed parameters are re-applied by name
+            ref = dict((new_names.index(old_names[i]), v)
+                       for i, v in ref.items() if old_names[i] in new_names)
+            s.names = new_names
+            n_orig = len(new_names)
+            s.cur_k = op['n']
+            world.probe('n_ids_changed_with_fixed_parameters'
+                        if ref else 'n_ids_changed')
         elif k == 'eval':
             do_eval(s, ref, op, world, step)
         triples.append((prev, k + ':' + str(op.get('kind', '')), s.kind))
@@ -717,7 +753,7 @@ def generate(rng, index, tier):
         mech, _ = gen_mech_recipe(rng)
         recipe = {'kind': 'mech', 'mech': mech}
     elif kind == 'pop':
-        recipe = {'kind': 'pop', 'pop': set_n_ids_recipe(
+        recipe = {'kind': 'pop', 'n_ids': n_ids, 'pop': set_n_ids_recipe(
             gen_pop_recipe(rng), n_ids)}
     else:
         mech, n_out = gen_mech_recipe(rng)
@@ -762,6 +798,7 @@ def generate(rng, index, tier):
     p_eval = rng.uniform(0.3, 0.7)
     shadow_fixed = set()
     shared_cov = None
+    has_hetero = kind == 'pop' and '"H"' in json.dumps(recipe['pop'])
     want_sens = False
     sens_evals = [e for e in evals if e in ('s1', 'sim_s1', 's1r')]
     for _ in range(n_ops):
@@ -793,7 +830,9 @@ def generate(rng, index, tier):
                 op['n_samples'] = rng.randint(1, 4)
             if kind in ('pop', 'poppred'):
                 nd = zoo.pop_n_dim(recipe['pop'])
-                ni = n_ids if kind == 'pop' else 1
+                ni = 5 if kind == 'pop' else 1
+                if kind == 'pop':
+                    op['x'] = _vals(rng, 60)
                 op['eta'] = [_vals(rng, nd) for _ in range(ni)]
                 op['dlogp'] = [_vals(rng, nd, -1, 1) for _ in range(ni)]
                 # covariates usually belong to the individuals, not to the
@@ -809,6 +848,8 @@ def generate(rng, index, tier):
             if faults_on and rng.random() < 0.25:
                 op['fault'] = {'at_run': 0, 'kind': 'fail'}
             ops.append(op)
+        elif r < p_eval + 0.06 and kind == 'pop' and has_hetero:
+            ops.append({'op': 'set_n_ids', 'n': rng.randint(1, 5)})
         elif r < p_eval + 0.08 and kind in ('error', 'mech', 'pop'):
             idx = rng.sample(range(n), rng.randint(1, min(2, n)))
             ops.append({'op': 'rename',
